@@ -38,6 +38,7 @@ func (s *keySigner) Sign(h []byte) (*btecdsa.Signature, error) { return btecdsa.
 
 // fundPlan: where the wallet puts the swap output among its own outputs
 type fundPlan struct {
+	nested bool // the wallet funds from nested-segwit coins: finalising adds a scriptSig, the txid changes
 	nIn    int
 	before []planOut // outputs placed before the swap output
 	after  []planOut
@@ -172,8 +173,14 @@ func (f *fakeWalletKit) FinalizePsbt(ctx context.Context, in *walletrpc.Finalize
 		return nil, err
 	}
 	tx := p.UnsignedTx.Copy()
+	f.mu.Lock()
+	nested := f.plan.nested
+	f.mu.Unlock()
 	for i := range tx.TxIn {
 		tx.TxIn[i].Witness = wire.TxWitness{bytes.Repeat([]byte{0x30}, 71), bytes.Repeat([]byte{0x02}, 33)}
+		if nested {
+			tx.TxIn[i].SignatureScript = append([]byte{0x16, 0x00, 0x14}, bytes.Repeat([]byte{byte(0x50 + i)}, 20)...)
+		}
 	}
 	var raw bytes.Buffer
 	if err := tx.Serialize(&raw); err != nil {
@@ -330,8 +337,9 @@ func newRealWallets(cfg WorldCfg) *realWallets {
 }
 
 // buildOpeningLq: an Elements opening transaction as a peer's wallet would broadcast it: `pos` foreign outputs, the
-// swap output (blinded to the swap's blinding key), one more foreign output.
-func buildOpeningLq(p *swap.OpeningParams, csv uint32, pos int, amount uint64) (string, string, error) {
+// swap output (kind: C blinded to the swap's blinding key, E explicit, W blinded to another key, L lying rangeproof;
+// policy: in the policy asset), one more foreign output.
+func buildOpeningLq(p *swap.OpeningParams, csv uint32, pos int, amount uint64, kind string, policy bool) (string, string, error) {
 	redeem, err := onchain.ParamsToTxScript(p, csv)
 	if err != nil {
 		return "", "", err
@@ -341,7 +349,7 @@ func buildOpeningLq(p *swap.OpeningParams, csv uint32, pos int, amount uint64) (
 	for i := 0; i < pos; i++ {
 		specs = append(specs, lqOutSpec{script: 1, kind: "C", policy: true, value: uint64(7777 + i)})
 	}
-	specs = append(specs, lqOutSpec{script: 0, kind: "C", policy: true, value: amount}, lqOutSpec{script: 2, kind: "E", policy: true, value: 123456})
+	specs = append(specs, lqOutSpec{script: 0, kind: kind, policy: policy, value: amount}, lqOutSpec{script: 2, kind: "E", policy: true, value: 123456})
 	hx := e.lqTx(specs)
 	tx, err := transaction.NewTxFromHex(hx)
 	if err != nil {
